@@ -3,4 +3,5 @@
 pub mod spec;
 pub mod vz;
 pub mod c14;
+pub mod c18_brk;
 pub mod generated;
